@@ -209,7 +209,10 @@ theorem runTrx_cfr {s : St} {ht : Int} {tx : TxIn} {rc : Account} {s2 : St} {g :
     · rw [h1]; exact hb.trans (CFr.of_cs (cs_setAcct _ _))
 
 theorem handleTx_cfr (s : St) (ht : Int) (tx : TxIn) : CFr s (handleTx s true ht tx).1 := by
-  unfold handleTx
+  by_cases hlen : byteLen tx.to = 20
+  case neg => rw [handleTx_badlen_fst hlen]; exact CFr.refl s
+  rw [handleTx_goodlen hlen]
+  unfold handleTxOld
   simp only []
   split
   · exact CFr.refl s
